@@ -149,6 +149,9 @@ func boundsRun(c *Ctx, entries []*ssa.Function, hooks *bounds.Hooks) int {
 		return a.Pos < b.Pos
 	})
 	n := 0
+	type pendOb struct{ rule, fn, text, pos, detail, fam string }
+	var pend []pendOb
+	famUsed := map[string]int{}
 	for _, k := range order {
 		a := merged[k]
 		o := a.o
@@ -196,8 +199,43 @@ func boundsRun(c *Ctx, entries []*ssa.Function, hooks *bounds.Hooks) int {
 			if via != fname {
 				t += " [via " + via + "]"
 			}
-			r.Add("BOUNDS."+o.Kind, fname, t, p.Position(o.Pos), false,
-				fmt.Sprintf("%s not entailed: %s", kindNames[o.Kind], a.details[via]))
+			rule := "BOUNDS." + o.Kind
+			cons := r.Construct(rule, fname, t)
+			key := rule + "|" + fname + "|" + cons
+			detail := fmt.Sprintf("%s not entailed: %s", kindNames[o.Kind], a.details[via])
+			if _, exact := r.AssumedKeys()[key]; exact {
+				r.AddRaw(rule, fname, cons, p.Position(o.Pos), -1, detail, "")
+				famUsed[familyOf(rule, via, t)]++
+				continue
+			}
+			pend = append(pend, pendOb{rule, fname, cons, p.Position(o.Pos), detail, familyOf(rule, via, t)})
+		}
+	}
+	// Obligations that are not discharged and whose exact key is not in the assumed table: a
+	// behaviour-preserving edit (an expression hoisted into a local, a loop moved into a helper)
+	// re-words an obligation that was argued by hand. They are accepted as long as their family
+	// (kind, entry context, failing sub-goals) does not contain more undischarged obligations than the
+	// assumed table lists for it; a weakened guard adds a new undischarged obligation (or a new failing
+	// sub-goal) and exceeds the budget.
+	budget, famReason := familyBudgets(r.AssumedKeys())
+	byFam := map[string][]pendOb{}
+	var famOrder []string
+	for _, po := range pend {
+		if _, ok := byFam[po.fam]; !ok {
+			famOrder = append(famOrder, po.fam)
+		}
+		byFam[po.fam] = append(byFam[po.fam], po)
+	}
+	for _, fam := range famOrder {
+		pos := byFam[fam]
+		within := famUsed[fam]+len(pos) <= budget[fam]
+		for _, po := range pos {
+			if within {
+				r.AddRaw(po.rule, po.fn, po.text, po.pos, int(core.Assumed), po.detail,
+					"same family as "+fmt.Sprint(budget[fam])+" obligation(s) of the assumed table (kind, entry context and failing sub-goals agree; the wording differs from the pinned tree): "+famReason[fam])
+			} else {
+				r.AddRaw(po.rule, po.fn, po.text, po.pos, -1, po.detail, "")
+			}
 		}
 	}
 	if c.collectOnly {
@@ -206,6 +244,47 @@ func boundsRun(c *Ctx, entries []*ssa.Function, hooks *bounds.Hooks) int {
 	r.Infof("BOUNDS: %d entries, %d functions, %d obligations, %d entailment queries, %d feasibility queries, %d instruction steps, %.1fs wall (K=%d depth=%d)",
 		len(uniq), len(nfuncs), n, totalEn, totalFe, totalSt, time.Since(t0).Seconds(), cfg.K, cfg.MaxDepth)
 	return n
+}
+
+// familyOf names the family of an undischarged obligation: rule, entry context and failing sub-goals.
+func familyOf(rule, via, text string) string {
+	sub := ""
+	if i := strings.Index(text, " {"); i >= 0 {
+		if j := strings.Index(text[i:], "}"); j >= 0 {
+			sub = text[i+1 : i+j+1]
+		}
+	}
+	if rule == "BOUNDS.CTR" {
+		// contracts are distinguished by their name (the text before the colon)
+		if i := strings.Index(text, ":"); i >= 0 {
+			sub = text[:i]
+		}
+	}
+	return rule + "|" + via + "|" + sub
+}
+
+// familyBudgets counts the assumed-table keys per family and keeps one reason per family.
+func familyBudgets(assumed map[string]string) (map[string]int, map[string]string) {
+	budget, reason := map[string]int{}, map[string]string{}
+	for k, why := range assumed {
+		parts := strings.SplitN(k, "|", 3)
+		if len(parts) != 3 || !strings.HasPrefix(parts[0], "BOUNDS.") {
+			continue
+		}
+		via := parts[1]
+		if i := strings.Index(parts[2], " [via "); i >= 0 {
+			rest := parts[2][i+6:]
+			if j := strings.Index(rest, "]"); j >= 0 {
+				via = rest[:j]
+			}
+		}
+		fam := familyOf(parts[0], via, parts[2])
+		budget[fam]++
+		if _, ok := reason[fam]; !ok || why < reason[fam] {
+			reason[fam] = why
+		}
+	}
+	return budget, reason
 }
 
 // partNames: the sub-goals of the multi-goal obligation kinds, in the order the interpreter builds them.
